@@ -3,6 +3,7 @@ package main
 // Streams on the pure / per-document layers: C11 (round-trip), C16 (criteria algebra), C18 (normalisation).
 
 import (
+	"math/big"
 	"os"
 	"math"
 	"fmt"
@@ -414,6 +415,8 @@ func satVia(c *Crit, doc *d.Document) (res T) {
 	return []T{int64(0), Tbool(q.Criteria().Satisfy(doc))}
 }
 
+func bigToFloat(r *big.Rat) float64 { f, _ := r.Float64(); return f }
+
 func runC16(seed int64, n int, out string) *RunReport {
 	f := &failer{}
 	cs := &CaseSet{}
@@ -509,6 +512,61 @@ func runC16(seed int64, n int, out string) *RunReport {
 		if i < 2 {
 			samples = append(samples, map[string]string{"criteria": clip(a.term(), 300), "document": clip(gValue(m), 300), "impl": Tstr(ra)})
 		}
+	}
+	// literal-kind invariance on the boundary values, systematically: the same number stored under one Go kind and supplied
+	// as a literal under another must give the same answer for every operator (and the model agrees)
+	{
+		type num struct {
+			v interface{}
+			r *big.Rat
+		}
+		mk := func(v interface{}) num {
+			r := new(big.Rat)
+			switch x := v.(type) {
+			case int64:
+				r.SetInt64(x)
+			case uint64:
+				r.SetInt(new(big.Int).SetUint64(x))
+			case float64:
+				r.SetFloat64(x)
+			}
+			return num{v, r}
+		}
+		nums := []num{mk(int64(0)), mk(uint64(0)), mk(float64(0)), mk(math.Copysign(0, -1)), mk(int64(-1)), mk(uint64(1)), mk(float64(1)), mk(int64(1)),
+			mk(int64(math.MaxInt64)), mk(uint64(math.MaxInt64)), mk(uint64(1 << 63)), mk(int64(math.MinInt64)), mk(uint64(math.MaxUint64)), mk(float64(-1)), mk(float64(1 << 53)), mk(int64(1 << 53))}
+		for _, stored := range nums {
+			m := map[string]interface{}{"a": stored.v, "arr": []interface{}{stored.v}}
+			doc := d.NewDocumentOf(copyCanon(m))
+			for _, lit := range nums {
+				_, sf := stored.v.(float64)
+				_, lf := lit.v.(float64)
+				exact := !sf && !lf // integer against integer is compared exactly; with a float involved the integer is converted first
+				c := stored.r.Cmp(lit.r)
+				for _, op := range []string{"OEq", "OGt", "OGtEq", "OLt", "OLtEq"} {
+					cr := &Crit{Kind: "cmp", Op: op, Field: "a", Val: Operand{Lit: lit.v}}
+					r := satVia(cr, doc)
+					evals++
+					cs.Add(fmt.Sprintf("(HSat %s %s %s)", cr.term(), gObj(m), Tstr(r)), false)
+					if exact || (math.Abs(bigToFloat(stored.r)) <= 1<<53 && math.Abs(bigToFloat(lit.r)) <= 1<<53) {
+						want := map[string]bool{"OEq": c == 0, "OGt": c > 0, "OGtEq": c >= 0, "OLt": c < 0, "OLtEq": c <= 0}[op]
+						if Tstr(r) != Tstr([]T{int64(0), Tbool(want)}) {
+							f.failf("%s of stored %T %v against literal %T %v answers %s, numerically it is %v", op, stored.v, stored.v, lit.v, lit.v, Tstr(r), want)
+						}
+					}
+				}
+				if exact || (math.Abs(bigToFloat(stored.r)) <= 1<<53 && math.Abs(bigToFloat(lit.r)) <= 1<<53) {
+					for _, kind := range []string{"in", "contains"} {
+						fld := map[string]string{"in": "a", "contains": "arr"}[kind]
+						r := satVia(&Crit{Kind: kind, Field: fld, Vals: []Operand{{Lit: lit.v}}}, doc)
+						evals++
+						if Tstr(r) != Tstr([]T{int64(0), Tbool(c == 0)}) {
+							f.failf("%s of stored %T %v with operand %T %v answers %s, numerically equal: %v", kind, stored.v, stored.v, lit.v, lit.v, Tstr(r), c == 0)
+						}
+					}
+				}
+			}
+		}
+		laws["numeric-grid"] = len(nums) * len(nums)
 	}
 	files := cs.Write(out, "c16")
 	return &RunReport{Stream: "c16", Seed: seed, Evaluations: evals, Distinct: len(laws) + len(h.crits),
